@@ -10,6 +10,7 @@ import (
 	"os"
 	"os/exec"
 	"runtime"
+	"strconv"
 	"strings"
 	"sync"
 	"testing"
@@ -17,6 +18,8 @@ import (
 
 	"github.com/ethereum/go-ethereum/common"
 	"github.com/ethereum/go-ethereum/crypto"
+	"github.com/libp2p/go-libp2p/core/protocol"
+	"github.com/prometheus/client_golang/prometheus"
 	mockkeysigner "github.com/primevprotocol/mev-commit/pkg/keysigner/mock"
 	"github.com/primevprotocol/mev-commit/pkg/p2p"
 	"github.com/primevprotocol/mev-commit/pkg/util"
@@ -38,22 +41,26 @@ type c16In struct {
 	// ("/"+IName+"/"+V[0]+"."+V[1]+"."+V[2] against HV[0]+"."+HV[1]+"."+HV[2]); every entry of V, HV is a string
 	// of decimal digits (leading zeros allowed, any size)
 	Num *c16Num `json:",omitempty"`
+	// hostile identifier end to end: two real services in a CHILD process; a connected peer opens Incoming (raw bytes)
+	// with host.NewStream against a node that registered Descs
+	E2E bool `json:",omitempty"`
 }
 
 type c16Num struct {
-	Pre   string // first segment (ignored by the code under test); no '/'
+	Pre   []byte // what stands in front of the first '/' (must be empty for a match); raw bytes, no '/'
 	IName string
 	V, HV [3]string
 }
 
-func c16Numeric(pre, iname string, v [3]string, hname string, hv [3]string) c16In {
-	return c16In{Incoming: []byte(pre + "/" + iname + "/" + v[0] + "." + v[1] + "." + v[2]), Name: []byte(hname),
+func c16Numeric(pres, iname string, v [3]string, hname string, hv [3]string) c16In {
+	pre := []byte(pres)
+	return c16In{Incoming: []byte(pres + "/" + iname + "/" + v[0] + "." + v[1] + "." + v[2]), Name: []byte(hname),
 		Supported: []byte(hv[0] + "." + hv[1] + "." + hv[2]), Num: &c16Num{Pre: pre, IName: iname, V: v, HV: hv}}
 }
 
 // the numbers a numeric case was generated from, as Coq literals (read with math/big, not with the code under test)
 func c16Nums(n *c16Num) (string, bool) {
-	if strings.Contains(n.Pre, "/") {
+	if strings.Contains(string(n.Pre), "/") {
 		return "[]", false
 	}
 	var items []string
@@ -242,6 +249,213 @@ func c16Route(t *testing.T, slow int, descs [][2]string, oneCall bool, opens [][
 	return res
 }
 
+
+type c16E2EJob struct {
+	Descs [][2]string
+	Ids   [][]byte
+	Slow  int
+}
+
+type c16E2ERes struct {
+	Obs  int    // 0 refused, k = k-th handler ran, 99 several, 98 opened but no handler, 97 failed otherwise, 2 = the child crashed
+	Note string // the opener's error, or the tail of the crashed child's output
+}
+
+// TestVerifC16E2EChild is the body of the hostile-identifier child process: a server node with the job's descriptors
+// (metrics registered, as the real node does), a connected client, every identifier opened with the RAW
+// host.NewStream (what any connected peer can send; Service.NewStream would only build "/name/version").
+func TestVerifC16E2EChild(t *testing.T) {
+	path := os.Getenv("VERIF_C16_E2E_JOB")
+	if path == "" {
+		t.Skip("child of TestVerifC16 only")
+	}
+	raw, err := os.ReadFile(path)
+	if err != nil {
+		t.Fatal(err)
+	}
+	var job c16E2EJob
+	if err := json.Unmarshal(raw, &job); err != nil {
+		t.Fatal(err)
+	}
+	if job.Slow < 1 {
+		job.Slow = 1
+	}
+	mk := func() *Service {
+		k, err := crypto.GenerateKey()
+		if err != nil {
+			t.Fatal(err)
+		}
+		svc, err := New(&Options{
+			KeySigner:  mockkeysigner.NewMockKeySigner(k, crypto.PubkeyToAddress(k.PublicKey)),
+			Secret:     "test",
+			ListenPort: 0,
+			ListenAddr: "127.0.0.1",
+			PeerType:   p2p.PeerTypeBidder,
+			Register:   c16Reg{},
+			Logger:     util.NewTestLogger(io.Discard),
+			MetricsReg: prometheus.NewRegistry(),
+		})
+		if err != nil {
+			t.Fatal(err)
+		}
+		return svc
+	}
+	server, client := mk(), mk()
+	defer server.Close()
+	defer client.Close()
+	invoked := make(chan int, 64)
+	for i, d := range job.Descs {
+		k := i + 1
+		server.AddStreamHandlers(p2p.StreamDesc{Name: d[0], Version: d[1], Handler: func(ctx context.Context, _ p2p.Peer, _ p2p.Stream) error {
+			invoked <- k
+			return nil
+		}})
+	}
+	info := server.host.Peerstore().PeerInfo(server.host.ID())
+	addr, err := info.MarshalJSON()
+	if err != nil {
+		t.Fatal(err)
+	}
+	ctx, cancel := context.WithTimeout(context.Background(), time.Duration(job.Slow)*10*time.Minute)
+	defer cancel()
+	if _, err := client.Connect(ctx, addr); err != nil {
+		t.Fatalf("c16 e2e: connect: %v", err)
+	}
+	wait := time.Duration(job.Slow) * 10 * time.Second
+	fmt.Printf("\nC16E2E READY\n")
+	for i, id := range job.Ids {
+		fmt.Printf("\nC16E2E START %d\n", i)
+		for drained := false; !drained; {
+			select {
+			case <-invoked:
+			default:
+				drained = true
+			}
+		}
+		got, note := 0, ""
+		octx, ocancel := context.WithTimeout(ctx, 3*wait)
+		str, err := client.host.NewStream(octx, server.host.ID(), protocol.ID(string(id)))
+		if err == nil {
+			// what Service.NewStream does next: the header exchange, after which the wrapper calls the handler
+			m := newMetadataStream(str)
+			if err = m.WriteHeader(octx, p2p.Header{}); err == nil {
+				_, err = m.ReadHeader(octx)
+			}
+			if err != nil {
+				_ = str.Reset()
+			}
+		}
+		if err != nil {
+			note = err.Error()
+			if len(note) > 200 {
+				note = note[:200]
+			}
+			if !strings.Contains(err.Error(), "protocols not supported") {
+				got = 97
+			}
+			select {
+			case got = <-invoked:
+			case <-time.After(time.Duration(job.Slow) * 150 * time.Millisecond):
+			}
+		} else {
+			select {
+			case got = <-invoked:
+			case <-time.After(wait):
+				got = 98
+			}
+			_ = str.Close()
+		}
+		ocancel()
+		if got >= 1 && got < 97 {
+			select {
+			case <-invoked:
+				got = 99
+			case <-time.After(time.Duration(job.Slow) * 20 * time.Millisecond):
+			}
+		}
+		// the node must still be there: a crash on one of its goroutines ends this process before the next line
+		time.Sleep(time.Duration(job.Slow) * 30 * time.Millisecond)
+		fmt.Printf("\nC16E2E RES %d %d %s\n", i, got, strconv.Quote(note))
+	}
+	fmt.Printf("\nC16E2E DONE\n")
+}
+
+// c16E2E runs the identifiers in child processes; an identifier during which the child died is observed as 2 and the
+// remaining ones continue in a fresh child
+func c16E2E(descs [][2]string, ids [][]byte, slow int) []c16E2ERes {
+	res := make([]c16E2ERes, len(ids))
+	for i := range res {
+		res[i].Obs = -1
+	}
+	next := 0
+	for next < len(ids) {
+		f, err := os.CreateTemp("", "c16e2e*.json")
+		if err != nil {
+			panic(err)
+		}
+		job, _ := json.Marshal(c16E2EJob{Descs: descs, Ids: ids[next:], Slow: slow})
+		_, _ = f.Write(job)
+		_ = f.Close()
+		cmd := exec.Command(os.Args[0], "-test.run=^TestVerifC16E2EChild$", "-test.count=1", "-test.timeout=30m")
+		cmd.Env = append(os.Environ(), "VERIF_C16_E2E_JOB="+f.Name(), "VERIF_OUT=")
+		out, _ := cmd.CombinedOutput()
+		_ = os.Remove(f.Name())
+		txt := string(out)
+		started, base := -1, next
+		for _, line := range strings.Split(txt, "\n") {
+			var i, o int
+			if n, _ := fmt.Sscanf(line, "C16E2E START %d", &i); n == 1 {
+				started = i
+				continue
+			}
+			if strings.HasPrefix(line, "C16E2E RES ") {
+				var q string
+				rest := strings.TrimPrefix(line, "C16E2E RES ")
+				if n, _ := fmt.Sscanf(rest, "%d %d", &i, &o); n == 2 && base+i < len(ids) {
+					if k := strings.Index(rest, "\""); k >= 0 {
+						q, _ = strconv.Unquote(rest[k:])
+					}
+					res[base+i] = c16E2ERes{Obs: o, Note: q}
+					if base+i >= next {
+						next = base + i + 1
+					}
+				}
+			}
+		}
+		if strings.Contains(txt, "C16E2E DONE") {
+			break
+		}
+		// the child ended early
+		tail := txt
+		if len(tail) > 1500 {
+			tail = tail[len(tail)-1500:]
+		}
+		if !strings.Contains(txt, "C16E2E READY") {
+			// the two services could not be set up (busy machine): nothing observed, nothing claimed
+			for i := next; i < len(ids); i++ {
+				res[i] = c16E2ERes{Obs: 97, Note: "child set-up failed: " + tail}
+			}
+			break
+		}
+		if started >= 0 && base+started < len(ids) && res[base+started].Obs < 0 {
+			res[base+started] = c16E2ERes{Obs: 2, Note: tail}
+			next = base + started + 1
+		} else if started >= 0 && base+started < len(ids) {
+			// died after the result of the last identifier was printed: that identifier's doing
+			res[base+started] = c16E2ERes{Obs: 2, Note: "after the result: " + tail}
+			next = base + started + 1
+		} else {
+			break
+		}
+	}
+	for i := range res {
+		if res[i].Obs < 0 {
+			res[i] = c16E2ERes{Obs: 97, Note: "no result"}
+		}
+	}
+	return res
+}
+
 func c16Run(in c16In) (obs int) {
 	defer func() {
 		if r := recover(); r != nil {
@@ -299,9 +513,13 @@ func TestVerifC16(t *testing.T) {
 		return coqList(items)
 	}
 	emit := func(class string, in c16In, rawObs interface{}, kind int, descs [][2]string, iname string, nums string, obs int) {
+		ipre := ""
+		if in.Num != nil && kind == 2 {
+			ipre = string(in.Num.Pre)
+		}
 		e.Emit(class, in, rawObs, func(id int) string {
 			return coqRecord("id", coqN(uint64(id)), "kind", coqN(uint64(kind)), "descs", coqDescs(descs), "incoming", coqBytes(in.Incoming),
-				"hname", coqBytes(in.Name), "supported", coqBytes(in.Supported), "iname", coqStr(iname), "nums", nums, "obs", coqN(uint64(obs)))
+				"hname", coqBytes(in.Name), "supported", coqBytes(in.Supported), "ipre", coqStr(ipre), "iname", coqStr(iname), "nums", nums, "obs", coqN(uint64(obs)))
 		})
 	}
 	run := func(class string, in c16In) {
@@ -315,6 +533,11 @@ func TestVerifC16(t *testing.T) {
 			emit(class, in, stressObs{res, note}, 3, nil, "", "[]", res)
 			return
 		}
+		if in.E2E {
+			r := c16E2E(in.Descs, [][]byte{in.Incoming}, e.Slow)[0]
+			emit(class, in, r, 4, in.Descs, "", "[]", r.Obs)
+			return
+		}
 		if in.Routing {
 			parts := strings.SplitN(strings.TrimPrefix(string(in.Incoming), "/"), "/", 2)
 			if len(parts) != 2 {
@@ -326,7 +549,7 @@ func TestVerifC16(t *testing.T) {
 		}
 		if in.Num != nil {
 			// the strings are (re)spelled from the generator's data, so that a replayed case is the same case
-			in = c16Numeric(in.Num.Pre, in.Num.IName, in.Num.V, string(in.Name), in.Num.HV)
+			in = c16Numeric(string(in.Num.Pre), in.Num.IName, in.Num.V, string(in.Name), in.Num.HV)
 			if nums, ok := c16Nums(in.Num); ok {
 				obs := c16Run(in)
 				emit(class, in, obs, 2, nil, in.Num.IName, nums, obs)
@@ -371,6 +594,66 @@ func TestVerifC16(t *testing.T) {
 		if e.Tier == "thorough" {
 			routing([][2]string{{"p", "1.0.0"}, {"q", "1.0.0"}, {"r", "1.0.0"}, {"s", "1.0.0"}}, true,
 				[][2]string{{"p", "1.0.0"}, {"q", "1.0.0"}, {"r", "1.0.0"}, {"s", "1.0.0"}, {"s", "1.1.0"}, {"t", "1.0.0"}})
+		}
+	}
+	// hostile identifiers end to end (child process, two real services): what ANY connected peer can send with the raw
+	// host.NewStream.  Never a crash of the node; the handler runs exactly when the rule matches.
+	{
+		descs := [][2]string{{"test", "1.2.0"}}
+		good := "/test/1.0.0"
+		var ids [][]byte
+		add := func(x string) { ids = append(ids, []byte(x)) }
+		// hostile first segments in front of an identifier that would match
+		for _, pre := range []string{"\xff", "x", " ", "   ", "\xc3\x28", "\xed\xa0\x80", "\xf8\x88\x80\x80\x80", "é", "\x00", "test", "1.0.0", ".",
+			"\n", strings.Repeat("a", 900), strings.Repeat("\xff", 64)} {
+			add(pre + good)
+		}
+		// hostile names and versions
+		for _, x := range []string{"/\xff/1.0.0", "/te\xffst/1.0.0", "/test\x00/1.0.0", "/test\xff/1.0.0", "/\xfftest/1.0.0", "/TEST/1.0.0", "/ test/1.0.0",
+			"/test/\xff", "/test/1.0.\xff", "/test/1.0.0\xff", "/test/\xff1.0.0", "/test/1.\xff.0", "/test/v1.0.0", "/test/v1.0.0\xff", "/test/1.0",
+			"/test/1.0.0-rc1", "/test/1.0.0-\xff", "/test/1.0.0+\xff", "/test/1.0.0+meta", "/test/1.0.0 ", "/test/ 1.0.0", "/test/1.0.0\n",
+			"/test/1.0.0/", "/test/1.0.0/\xff", "//test/1.0.0", "/test//1.0.0"} {
+			add(x)
+		}
+		// a byte that is not valid UTF-8 in every position of a matching identifier (replacing, and inserted)
+		for i := 0; i <= len(good); i++ {
+			if i < len(good) {
+				add(good[:i] + "\xff" + good[i+1:])
+			}
+			add(good[:i] + "\xff" + good[i:])
+		}
+		// degenerate and very long identifiers (multistream refuses tokens over 1 KiB; nothing may crash)
+		for _, x := range []string{"", "/", "//", "///", "/test", "/test/", "test/1.0.0", "test", strings.Repeat("/", 4096), strings.Repeat("a", 4096),
+			"/test/" + strings.Repeat("1", 4090), "/" + strings.Repeat("a", 4084) + "/1.0.0", strings.Repeat("\xff", 4096),
+			strings.Repeat("b", 1000) + good, "/test/" + strings.Repeat("0", 900) + "1.0.0"} {
+			add(x)
+		}
+		// the rule itself end to end
+		for _, x := range []string{good, "/test/1.2.9", "/test/01.1.0", "/test/1.3.0", "/test/2.0.0", "/test/0.9.0", "/tes/1.0.0"} {
+			add(x)
+		}
+		// random bytes around the matching identifier
+		nr := 12
+		if e.Tier == "thorough" {
+			nr = 200
+		}
+		for i := 0; i < nr; i++ {
+			b := []byte(good)
+			for k := e.rng.Intn(3) + 1; k > 0; k-- {
+				pos := e.rng.Intn(len(b) + 1)
+				c := []byte{"\xff\xfe\x80\xc0/. x0\x00"[e.rng.Intn(10)]}
+				if e.rng.Intn(2) == 0 && pos < len(b) {
+					b[pos] = c[0]
+				} else {
+					b = append(b[:pos], append(c, b[pos:]...)...)
+				}
+			}
+			ids = append(ids, b)
+		}
+		res := c16E2E(descs, ids, e.Slow)
+		for i, id := range ids {
+			in := c16In{Incoming: id, E2E: true, Descs: descs}
+			emit("hostile-id-e2e", in, res[i], 4, descs, "", "[]", res[i].Obs)
 		}
 	}
 	// concurrent negotiations (child process): a crash or a wrong verdict under concurrency is a violation
@@ -449,7 +732,7 @@ func TestVerifC16(t *testing.T) {
 			return uint64(e.rng.Intn(5))
 		}
 		nms := []string{"preconf", "handshake", "a", "ünï", "pre conf", ""}
-		pres := []string{"", "", "junk", "1.0.0", " ", "preconf"}
+		pres := []string{"", "", "", "junk", "1.0.0", " ", "preconf", "x", "\xff", "\xc3\x28", strings.Repeat("a", 300), "\x00"}
 		n := nms[e.rng.Intn(len(nms))]
 		hn := n
 		if e.rng.Intn(4) == 0 {
